@@ -1,6 +1,6 @@
 pub mod glist;
 pub mod list;
-// pub mod map_map;
+pub mod map_map;
 pub mod map_mv;
 pub mod map_or;
 pub mod merkle;
